@@ -25,6 +25,26 @@ CONTRACTS = {
         requires=[('pos.shape[1] >= 3', 'pos : "ndarray of shape (n,3)"')],
     ),
     'abacusnbody/analysis/tsc.py:_zeros_parallel': dict(params={'shape': 'opaque', 'dtype': 'opaque'}),
+    'abacusnbody/data/compaso_halo_catalog.py:CompaSOHaloCatalog._unpack_rv_subsamples': dict(
+        params={'pos': 'optarr', 'vel': 'optarr', 'rvint': 'optarr', 'slab_rvint': 'arr', 'slab_read_offsets': 'arr', 'slab_read_lens': 'arr',
+                'slab_write_offsets': 'arr', 'boxsize': 'opaque', 'clean_slab_rvint': 'optarr', 'clean_slab_read_offsets': 'optarr',
+                'clean_slab_read_lens': 'optarr'},
+        rank={'slab_read_offsets': 1, 'slab_read_lens': 1, 'slab_write_offsets': 1, 'clean_slab_read_offsets': 1, 'clean_slab_read_lens': 1},
+        requires=[('len(slab_read_lens) == len(slab_read_offsets)', 'caller slices npstart/npout columns by the same halo row range (C01-R3)'),
+                  ('len(slab_write_offsets) == len(slab_read_offsets) + 1', 'caller passes new[off[i] : off[i+1] + 1] (C01-R3)'),
+                  ('len(clean_slab_read_offsets) == len(slab_read_offsets)', 'caller slices the _merge columns by the same halo row range (C01-R3)'),
+                  ('len(clean_slab_read_lens) == len(slab_read_offsets)', 'caller slices the _merge columns by the same halo row range (C01-R3)')],
+    ),
+    'abacusnbody/data/compaso_halo_catalog.py:CompaSOHaloCatalog._unpack_pid_subsamples': dict(
+        params={'pid': 'optarr', 'slab_packedpid': 'arr', 'slab_read_offsets': 'arr', 'slab_read_lens': 'arr', 'slab_write_offsets': 'arr',
+                'boxsize': 'opaque', 'ppd': 'opaque', 'clean_slab_packedpid': 'optarr', 'clean_slab_read_offsets': 'optarr',
+                'clean_slab_read_lens': 'optarr', 'lagr_pos': 'optarr', 'tagged': 'optarr', 'density': 'optarr', 'lagr_idx': 'optarr', 'packedpid': 'optarr'},
+        rank={'slab_read_offsets': 1, 'slab_read_lens': 1, 'slab_write_offsets': 1, 'clean_slab_read_offsets': 1, 'clean_slab_read_lens': 1},
+        requires=[('len(slab_read_lens) == len(slab_read_offsets)', 'caller slices npstart/npout columns by the same halo row range (C01-R3)'),
+                  ('len(slab_write_offsets) == len(slab_read_offsets) + 1', 'caller passes new[off[i] : off[i+1] + 1] (C01-R3)'),
+                  ('len(clean_slab_read_offsets) == len(slab_read_offsets)', 'caller slices the _merge columns by the same halo row range (C01-R3)'),
+                  ('len(clean_slab_read_lens) == len(slab_read_offsets)', 'caller slices the _merge columns by the same halo row range (C01-R3)')],
+    ),
     'abacusnbody/util.py:cumsum': dict(
         params={'arr': 'arr', 'out': 'arr', 'initial': 'bool', 'final': 'bool', 'offset': 'opaque'},
         rank={'arr': 1, 'out': 1},
